@@ -19,7 +19,7 @@ import (
 
 // C01 — stream features are negotiated only when allowed, in order, at most once.
 
-func init() { register(&Scenario{ID: "C01", Run: runC01}) }
+func init() { register(&Scenario{ID: "C01", Run: runC01, Alt: runC01Shared, AltEvery: 10}) }
 
 type fcfg struct {
 	idx            int
@@ -48,6 +48,7 @@ type fev struct {
 	mask   xmpp.SessionState
 	rw     bool
 	outLen int // bytes this side had written when the call returned
+	conn   any // negotiate: the connection of the session the feature was run for
 }
 
 type c01Side struct {
@@ -83,6 +84,7 @@ func (sd *c01Side) feature(rc *RC, f fcfg) xmpp.StreamFeature {
 		e := fev{kind: kind, ns: f.ns, hdrs: hdrCount(sd.conn.Conn.Out().Tap, sd.ws), lists: sd.listCount()}
 		if s != nil {
 			e.state = s.State()
+			e.conn = s.Conn()
 			sd.states = append(sd.states, e.state)
 		}
 		return e
